@@ -21,6 +21,18 @@ from . import models2    # noqa: F401  (second batch of std models, lowest prior
 _G = {}
 
 
+def _excepthook(tp, val, tb):
+    """an internal error of the machinery (oracle or MIR build failure, a bug in a check) is never a verdict: exit 2"""
+    import traceback
+    traceback.print_exception(tp, val, tb)
+    sys.stdout.write('INCONCLUSIVE internal error: %s: %s\n' % (tp.__name__, str(val)[:300]))
+    sys.stdout.flush()
+    os._exit(2)
+
+
+sys.excepthook = _excepthook
+
+
 def tier():
     t = os.environ.get('VERIF_TIER', 'quick')
     return t if t in ('quick', 'thorough') else 'quick'
